@@ -121,3 +121,18 @@ Proof.
   - apply in_or_app. right. eapply cleanup_prefix_event; eauto.
 Qed.
 
+
+(* ---------- (c) the module migration of the v8 upgrade ---------- *)
+(* Migrator.Migrate rewrites parameters only: counters, pool, batches (with their block index), bridge calls with their
+   indexes, parked claims, observed heights, the ledger and the erc20 relation are untouched, nothing is emitted *)
+Theorem migrate_preserves : forall s s' evs, accepted s Migrate s' evs ->
+  pool s' = pool s /\ batches s' = batches s /\ by_block s' = by_block s /\
+  next_tx s' = next_tx s /\ next_batch s' = next_batch s /\ next_call s' = next_call s /\
+  calls s' = calls s /\ by_sender s' = by_sender s /\ from_msg s' = from_msg s /\ pending s' = pending s /\
+  evn s' = evn s /\ obs_ext s' = obs_ext s /\ obs_fx s' = obs_fx s /\ fxh s' = fxh s /\
+  bal s' = bal s /\ toks s' = toks s /\ relation s' = relation s /\ evs = [] /\
+  p_batch_timeout (prm s') = p_batch_timeout (prm s) /\ p_avg_block (prm s') = p_avg_block (prm s) /\
+  p_avg_ext (prm s') = p_avg_ext (prm s) /\ p_max_elems (prm s') = p_max_elems (prm s) /\ p_call_timeout (prm s') = 604800000.
+Proof.
+  intros s s' evs A. apply accepted_exec in A. simpl in A. des A. inv A. simpl. repeat split; reflexivity.
+Qed.
